@@ -113,6 +113,24 @@ def run(chk, prog):
                        'JsonTokenizer::read_string has no case for the JSON escape \\%s: such text is dropped or '
                        'mis-decoded by the streaming loader' % e, rs.loc(0))
 
+    RE = 'C14.surrogates-combined-in-32-bits'
+    chk.rule(RE, 'Where the tokenizer decodes \\uXXXX escapes, no shift is performed on an operand narrower than 32 bits: '
+             'combining a UTF-16 surrogate pair needs (high - 0xD800) << 10, which does not fit 16 bits (characters of '
+             'plane 2 and above would silently decode to another character, while serde_json decodes them correctly).')
+    tok_fns = [f for f in prog.fns.values() if '::json_tokenizer::' in f.p and '::tests::' not in f.p]
+    if chk.anchor(RE, 'functions of json_tokenizer', tok_fns):
+        narrow = []
+        for f in tok_fns:
+            for bb, si, st in f.stmts():
+                if st['k'] == 'assign' and st['rv']['k'] == 'binop' and st['rv']['op'].startswith('Shl') \
+                        and st['rv'].get('aty') in ('u8', 'u16', 'i8', 'i16'):
+                    narrow.append((f, bb, si, st['rv']['aty']))
+        chk.decide(RE, chk.key(RE, 'no-narrow-shift'), not narrow,
+                   'no shift on 8/16-bit operands in the tokenizer (escape decoding is delegated to char::decode_utf16)',
+                   'the tokenizer shifts a %s value left: a surrogate half shifted in %s arithmetic loses its high bits'
+                   % ((narrow[0][3], narrow[0][3]) if narrow else ('', '')),
+                   narrow[0][0].loc(narrow[0][1], narrow[0][2]) if narrow else None)
+
     bounds = {}
     for name in ('json_read::load_from_string', 'json_read_stream::parse'):
         f = prog.fn(name)
